@@ -348,11 +348,17 @@ def gen_client_program(rng, w, task_idx, calcs, shots, n_ops, raising_calcs, all
             else:
                 prog.append({"op": "vel_for_temp", "ammo": aid, "t": [round(rng.uniform(-20, 40), 1), "Celsius"]})
     # any calculator never created would be unused: fine
+    add_clones(prog, rng, 0.12)
+    return prog
+
+
+def add_clones(prog, rng, p):
+    """mark some fire / elev operations to be carried out on COPIES of the shot and/or calculator"""
     r2 = random.Random(repr(rng.getstate()[1][:6]) + "clone")            # side stream (see gen_shot)
     for op in prog:
-        if op.get("op") in ("fire", "elev") and r2.random() < 0.12:
-            op["clone"] = {"what": gen.pick(r2, ["shot", "calc", "both"]), "how": gen.pick(r2, ["copy", "deepcopy", "pickle"])}
-    return prog
+        if op.get("op") in ("fire", "elev") and not op.get("clone") and r2.random() < p:
+            op["clone"] = {"what": gen.pick(r2, ["shot", "shot", "calc", "both"]),
+                           "how": gen.pick(r2, ["copy", "deepcopy", "pickle", "deepcopy", "pickle"])}
 
 
 def gen_admin_perturb_program(rng, n):
